@@ -131,7 +131,7 @@ SCOPES = {
                               Shapes1=ONE, ShapesR=ONE, Mags={1, 3, 5, 7, 9, 11}, Exps={1})),
             ("cover4", _scope(Mode="dist", NGroups={4}, Caps={1}, Socs={1, 3, 8}, SocLo=0, SocHi=9,
                               BatBnds={(-6, -2, 2, 6), (-6, 0, 0, 6), (-6, -4, 4, 6)}, InvBnds={(-6, 0, 0, 6)},
-                              Shapes1=ONE, ShapesR=ONE, Mags={1, 3, 5, 7, 9, 11, 13}, Exps={1, 2})),
+                              Shapes1=ONE, ShapesR=ONE, Mags={1, 3, 5, 7, 9, 11, 13}, Exps={1})),  # exponent 2 only on the coarse SoC grid (32-bit rationals)
         ],
         "reject": [
             ("reject", _scope(Mode="reject", NGroups={1, 2}, Caps={1}, Socs={2}, BatBnds=QB,
